@@ -877,7 +877,12 @@ static void worker_main(Property &prop, const Args &a, int w, uint64_t start, ui
 				}
 				if (!found)
 				{
-					send_line(fd, "N " + std::to_string(i) + " violation " + cls + " seen in-process but neither the in-process rerun, two fresh-process runs nor the replay of this worker's history reproduce it");
+					// not reproducible: never reported as a violation.  The batch goes on (the code under test may behave address-
+					// dependently in ONE run and deterministically wrong in others); it ends with exit 2 unless a reproducible
+					// violation is found as well
+					send_line(fd, "I " + std::to_string(i) + " violation " + cls + " seen in-process but neither the in-process rerun, two fresh-process runs nor the replay of this worker's history reproduce it");
+					sh->inflight = UINT64_MAX;
+					i += (uint64_t)a.workers;
 					break;
 				}
 				hp.expect_class = cls;
@@ -1314,6 +1319,7 @@ int driver_main(int argc, char **argv)
 	Tally T;
 	std::vector<ViolRec> viols;
 	std::vector<std::string> machinery_errors;
+	std::vector<std::string> irreproducible; // violations seen once that no replay reproduces: exit 2 unless reproducible ones exist too
 	bool stop_all = false;
 
 	auto spawn = [&](int w, uint64_t start) {
@@ -1416,6 +1422,8 @@ int driver_main(int argc, char **argv)
 		}
 		else if (tag == 'N')
 			machinery_errors.push_back(rest);
+		else if (tag == 'I')
+			irreproducible.push_back(rest);
 		else if (tag == 'D')
 		{
 			slots[(size_t)w].got_done = true;
@@ -1548,7 +1556,7 @@ int driver_main(int argc, char **argv)
 			std::set<std::string> classes;
 			for (auto &v : viols)
 				classes.insert(v.cls);
-			if (viols.size() >= 12 || classes.size() >= 6 || !machinery_errors.empty())
+			if (viols.size() >= 12 || classes.size() >= 6 || !machinery_errors.empty() || irreproducible.size() >= 6)
 				stop_all = true;
 			if (stop_all)
 				for (int x = 0; x < a.workers; x++)
@@ -1622,6 +1630,13 @@ int driver_main(int argc, char **argv)
 		for (auto &n : prop.probes())
 			if (!T.counters.count("probe." + n) && !ez.count(n))
 				printf("warning: probe '%s' was never hit in this batch\n", n.c_str());
+	}
+	for (auto &m : irreproducible)
+	{
+		if (unlisted)
+			printf("NOTE: not reproducible, not reported: %s\n", m.c_str());
+		else
+			machinery_errors.push_back(m);
 	}
 	if (!machinery_errors.empty())
 	{
